@@ -24,7 +24,8 @@ def theorems(pid):
 
 def findings():
     d = json.load(open(os.path.join(HERE, "known_findings.json")))
-    return d["findings"], d["fixed"]
+    # entries a builder flipped in place carry status "fixed": they suppress nothing (core honours "open" only)
+    return [f for f in d["findings"] if f.get("status", "open") == "open"], d["fixed"]
 
 
 def status_table():
